@@ -217,7 +217,11 @@ func cmdCheck(repo, prop, tier string, relock bool, only string, verbose bool) i
 				fmt.Fprintf(os.Stderr, "govc: WARNING: %s unreachable\n", r.O.Name)
 			}
 		default:
-			if !isLocked {
+			if !isLocked && r.Status == "failed" && r.O.Kind == "requires" {
+				// a call site that did not exist when the lock was written and that breaks the
+				// precondition of a contracted callee: a protocol violation, not a proof gap
+				report(r, r.O.Name, "new call site violates the callee's precondition (counterexample found)")
+			} else if !isLocked {
 				undecided = append(undecided, fmt.Sprintf("%s [%s %v]", r.O.Name, r.Status, r.R.Answers))
 				fmt.Fprintf(os.Stderr, "govc: UNDECIDED obligation=%s status=%s clause=%q answers=%v\n", r.O.Name, r.Status, r.O.Clause, r.R.Answers)
 				if verbose || relock {
